@@ -15,6 +15,15 @@ def tied_omen_levels(rng, path):
     return {'terminals': terminals, 'base': base, 'kind': 'tied OMEN levels'}
 
 
+def omen_unordered(rng, path):
+    """the most probable OMEN level is not level 1: pcfg_omen_prob.txt is sorted by probability, not by level number"""
+    terminals = {'D1': [('1', 0.5), ('2', 0.25), ('3', 0.125), ('4', 0.125)]}
+    base = [('D1', 0.5), ('M', 0.5)]
+    rulesets.write_ruleset(path, terminals, base, omen_prob=[(3, 0.5), (1, 0.25), (4, 0.15), (2, 0.125)],
+                           omen_keyspace=[(l, 1) for l in range(1, 5)])
+    return {'terminals': terminals, 'base': base, 'kind': 'OMEN levels not in level order', 'omen_prob': [(3, 0.5), (1, 0.25), (4, 0.15), (2, 0.125)]}
+
+
 def repeated_types(rng, path):
     terminals = {'D1': [('1', 0.5), ('2', 0.3), ('3', 0.2)], 'A2': [('ab', 0.5), ('cd', 0.5)], 'C2': [('LL', 0.75), ('UL', 0.25)],
                  'O1': [('!', 0.6), ('#', 0.4)]}
@@ -52,7 +61,7 @@ def all_special(rng, work):
     out = []
     for name, fn in (('long_alpha', expand.long_alpha_ruleset), ('near_tie', expand.near_tie_ruleset), ('tie_group', expand.tie_group_ruleset),
                      ('dyadic', expand.dyadic_prince_ruleset), ('dense_omen', expand.dense_omen_ruleset), ('tied_levels', tied_omen_levels),
-                     ('repeated', repeated_types), ('three_digit', three_digit), ('rich', expand.rich_ruleset)):
+                     ('repeated', repeated_types), ('three_digit', three_digit), ('rich', expand.rich_ruleset), ('omen_unordered', omen_unordered)):
         d = os.path.join(work, 'sp_' + name)
         desc = fn(rng, d)
         out.append((d, dict(desc, shape=name)))
